@@ -15,8 +15,8 @@ from vlib.engine import Check, Verdict, explore, map_cases
 from vlib import report, corpus, runner as R
 
 PRE = """
-class A { init() { self.f = 'Af'; self.g = 'Ag'; } m() { return 'Am'; } m1(x) { return 'Am1'; } }
-class B { init() { self.g = 'Bg'; self.h = 'Bh'; self.f = 'Bf'; } m() { return 'Bm'; } m1(x) { return 'Bm1'; } }
+class A { init() { self.f = 'Af'; self.g = 'Ag'; } m() { return 'Am'; } m1(x) { return 'Am1'; } static sm() { return 'Asm'; } static m() { return 'Astatic-m'; } }
+class B { init() { self.g = 'Bg'; self.h = 'Bh'; self.f = 'Bf'; } m() { return 'Bm'; } m1(x) { return 'Bm1'; } static sm() { return 'Bsm'; } }
 class C : A { init() { self.k = 'Ck'; super.init(); } m() { return 'Cm:' + super.m(); } m1(x) { return 'Cm1:' + super.m1(x); } }
 class C2 : C { init() { self.j = 'C2j'; super.init(); } }
 class D { init() { self.f = 'Df'; self.m = || 'Dfield'; self.m1 = |x| 'Dfield1'; } }
@@ -29,11 +29,13 @@ fn inv(o) { return o.m(); }
 fn getcall(o) { let f = o.m; return f(); }
 fn inv1(o) { return o.m1(1); }
 fn binop(o) { o.f += 'x'; return o.f; }
+fn sinv(o) { return o.sm(); }
 fn step(o) {
   try { print('r', read(o)); } catch e { print('r!', e.cls().name()); }
   try { print('i', inv(o)); } catch e { print('i!', e.cls().name()); }
   try { print('g', getcall(o)); } catch e { print('g!', e.cls().name()); }
   try { print('a', inv1(o)); } catch e { print('a!', e.cls().name()); }
+  try { print('s', sinv(o)); } catch e { print('s!', e.cls().name()); }
   try { print('w', write(o)); } catch e { print('w!', e.cls().name()); }
   try { print('b', binop(o)); } catch e { print('b!', e.cls().name()); }
   try { print('r', read(o)); } catch e { print('r!', e.cls().name()); }
@@ -43,8 +45,10 @@ RECV = {"A": "step(A());", "B": "step(B());", "C": "step(C());", "C2": "step(C2(
         "N": "step(5);", "S": "step('s');", "L": "step([1]);", "T1": "step(mk1());", "T2": "step(mk2());",
         "GC": "print('@@gc full'); let pad%d = [0];",
         # classes made by a factory with a run-time super class: one super-invoke site sees several super classes, twice for one receiver when stacked
+        # class objects as receivers (the receiver's class is the metaclass): static method invoke sites
+        "cA": "step(A);", "cB": "step(B);",
         "FA": "step(mixin(A)());", "FB": "step(mixin(B)());", "FFA": "step(mixin(mixin(A))());", "FFB": "step(mixin(mixin(B))());"}
-ALPHA = ["A", "B", "C", "C2", "D", "N", "T1", "T2", "GC", "FA", "FFA", "FFB", "FB", "S", "L"]
+ALPHA = ["A", "B", "C", "C2", "D", "N", "T1", "T2", "GC", "FA", "FFA", "cA", "cB", "FFB", "FB", "S", "L"]
 
 
 def prog(hist):
@@ -60,7 +64,7 @@ def prog(hist):
 class C13(Check):
     id = "C13"
     level = "exploration"
-    rule = ("(hist) all receiver histories of length 1..L (L=4 quick, 6 thorough) over a 15 symbol alphabet (13 for length 4, 11 beyond), each run with caches "
+    rule = ("(hist) all receiver histories of length 1..L (L=4 quick, 6 thorough) over a 17 symbol alphabet (13 for length 4, 11 beyond), each run with caches "
             "on and with hook H4 forcing every lookup to miss; oracle: equal output, and every step equals the output of that "
             "receiver at a fresh site; (corpus) every corpus program on/off. non-trivial = history with >= 2 different receiver "
             "classes at the site (or a corpus program containing a property/invoke site)")
